@@ -41,7 +41,8 @@ ASSUMPTIONS = [
     "refusal (negative contents, non-histogram / incompatible operands, invalid dtype / axis / amount); elsewhere the result must just be well-formed",
     "non-negative weights only (premise of the statement)",
 ]
-BOUNDS = {"quick": "<= 2 valid ops, 1 fault, 1 follow-up on 8 bases", "thorough": "<= 2 valid ops, 2 faults, 1 follow-up"}
+BOUNDS = {"quick": "<= 2 valid ops, 1 fault, 1 follow-up on 19 bases (after 2 valid ops: 2 of the follow-ups; the 13 type-dependent faults get their follow-ups from the base state only)",
+          "thorough": "<= 2 valid ops, 1-2 faults, every follow-up"}
 BUDGET = {"quick": 240, "thorough": 3000}
 
 
@@ -281,6 +282,10 @@ def larger_hist(o):
     c *= 3
     c.fill(first_axis_point(o))
     return c
+
+
+LATE_FAULTS = {"idiv_np_zero", "imul_2pow32", "imul_2pow40", "imul_1e200", "imul_np_int16", "idiv_np_int16", "idiv_1e-200", "fill_weight_2pow40",
+               "fill_weight_1e200", "fill_weight_np_int16", "fill_complex", "fill_n_int8_weights", "isub_more_missed"}
 
 
 def more_missed_hist(o):
@@ -639,8 +644,14 @@ def run_unit(unit, ctx):
         combos = [[f] for f in fnames]
         if unit["nf"] == 2:
             combos = [[a, b] for a in fnames[::2] for b in fnames[1::3]]
+        quick = not getattr(ctx, "thorough", False)
         for fl_ in combos:
-            for follow in [None] + follows:
+            fset = [None] + follows
+            if quick and len(prefix) == 2:
+                fset = [None] + follows[:2]  # quick tier: depth-2 prefixes get two follow-ups
+            if quick and prefix and fl_[0] in LATE_FAULTS:
+                fset = [None]  # the type-dependent faults added in the audit round: full follow-ups from the base state only
+            for follow in fset:
                 if (k & 31) == 0 and ctx.expired():
                     p.capped = True
                     p.notes.append(f"{unit}: stopped after {k} histories")
